@@ -616,10 +616,14 @@ Fixpoint rows_of (pre : string) (n : string) (d : def) : list row :=
   | DEnumField a v => [(q, [8; lline a; v; 0; 0], EmptyString)]
   end.
 
+Definition is_crash (k : kind) : bool :=
+  match k with KImportInMessageCrash | KZeroDivCrash => true | _ => false end.
+
 Definition observe (r : res def) : Z * string * Z * list row :=
   match r with
   | Ok d => (0, EmptyString, 0, rows_of EmptyString EmptyString d)
-  | Err k f l => (kind_code k, f, l, [])
+  | Err k f l => if is_crash k then (kind_code k, EmptyString, 0, [])   (* a traceback cites nothing *)
+                 else (kind_code k, f, l, [])
   end.
 
 Fixpoint zl_eqb (a b : list Z) : bool :=
